@@ -437,25 +437,27 @@ func (d *Decoder) Style() Style {
 // to bother parsing any children.
 // All it does is look for the end of the pre block and line breaks.
 func (d *Decoder) scanPre(data []byte, atEOF bool) (advance int, token []byte, err error) {
+	// Decisions are made a line at a time so that they do not depend on how much
+	// of the input has been buffered or on when the end of input is signaled.
+	newLineIDX := bytes.IndexByte(data, '\n')
 	switch idx := bytes.Index(data, fence); {
 	case idx == 0 && !atEOF && len(data) == len(fence):
 		// We need to make sure it's followed by a newline, so get more data.
 		return 0, nil, nil
-	case idx == 0 && (atEOF || (len(data) > len(fence) && data[len(fence)] == '\n')):
+	case idx == 0 && (newLineIDX == len(fence) || (atEOF && newLineIDX == -1)):
 		d.mask |= BlockPreEnd
 		d.clearMask |= BlockPre | BlockPreEnd
 		l := len(fence)
-		if !atEOF {
+		if newLineIDX == len(fence) {
 			l++
 		}
 		return l, data[:l], nil
 	}
-	if atEOF {
-		return len(data), data, nil
-	}
-	newLineIDX := bytes.IndexByte(data, '\n')
 	if newLineIDX >= 0 {
 		return newLineIDX + 1, data[:newLineIDX+1], nil
+	}
+	if atEOF {
+		return len(data), data, nil
 	}
 	return 0, nil, nil
 }
